@@ -446,3 +446,30 @@ def m_ip_eq(I, fr, callee, m, args):
 def m_ipaddr_from(I, fr, callee, m, args):
     which = m.group(1) or m.group(2)
     return En('IpAddr', 'V4' if which == 'Ipv4Addr' else 'V6', (args[0],))
+
+
+@model(r'^(?:std::net::)?(IpAddr|Ipv6Addr)::(to_canonical|to_ipv4_mapped|is_ipv4|is_ipv6)$')
+def m_ip_canonical(I, fr, callee, m, args):
+    """std: an IPv4-mapped IPv6 address ::ffff:a.b.c.d converts to the IPv4 address a.b.c.d; everything else is unchanged"""
+    v = deref_val(I, args[0])
+    op = m.group(2)
+    if m.group(1) == 'IpAddr':
+        if op == 'is_ipv4':
+            return TRUE if v.var == 'V4' else FALSE
+        if op == 'is_ipv6':
+            return TRUE if v.var == 'V6' else FALSE
+        if v.var == 'V4':
+            return v
+        v6 = v.f[0]
+    else:
+        v6 = v
+    octs = I.container_items(v6.f[0])
+    mapped = z3.And([o.z() == 0 for o in octs[:10]] + [o.z() == 0xFF for o in octs[10:12]])
+    if I.ctx.branch(mapped):
+        v4 = Agg('Ipv4Addr', (Agg('array', list(octs[12:16])),))
+        if op == 'to_ipv4_mapped':
+            return Some(v4)
+        return En('IpAddr', 'V4', (v4,))
+    if op == 'to_ipv4_mapped':
+        return NONE
+    return En('IpAddr', 'V6', (v6,))
